@@ -17,14 +17,16 @@ PLAN = dict(
     tiers=dict(
         quick=[det("rel", H, "cs-rel", 16, 50, 4, tso=True, time_cap=30),
                det("dbg", H, "cs-dbg", 8, 15, 4, tso=True, time_cap=25),
-               det("l1-monitor", L1, "cs-rel", 8, 400, 6, tso=True, time_cap=25, optional=True, case_prefix="mon ")],
+               det("l1-monitor", L1, "cs-rel", 8, 400, 6, tso=True, time_cap=25, optional=True, case_prefix="mon "),
+               tsan("C02", 4, 80)],
         thorough=[det("rel", H, "cs-rel", 16, 1500, 5, tso=True, time_cap=300),
                   det("dbg", H, "cs-dbg", 16, 400, 5, tso=True, time_cap=200),
                   det("enum-wake", H, "cs-rel", 16, 60, 2, tso=True, time_cap=150, enum="wake", enum_cap=200),
                   det("enum-sbload", H, "cs-rel", 16, 60, 2, tso=True, time_cap=150, enum="sbload", enum_cap=300),
                   det("enum-fwake", H, "cs-rel", 16, 60, 2, tso=True, time_cap=150, enum="fwake", enum_cap=100),
                   det("l1-monitor", L1, "cs-rel", 16, 6000, 8, tso=True, time_cap=120, optional=True, case_prefix="mon "),
-                  det("l1-monitor-enum-sbload", L1, "cs-rel", 16, 1500, 2, tso=True, time_cap=120, enum="sbload", enum_cap=60, optional=True, case_prefix="mon ")],
+                  det("l1-monitor-enum-sbload", L1, "cs-rel", 16, 1500, 2, tso=True, time_cap=120, enum="sbload", enum_cap=60, optional=True, case_prefix="mon "),
+               tsan("C02", 16, 600)],
     ),
 )
 TEXT = dict(
